@@ -87,9 +87,8 @@ class UAIReader(object):
             )
             grammar += function_grammar
 
-        floatnumber = Combine(
-            Word(nums) + Optional(Literal(".") + Optional(Word(nums)))
-        )
+        # Numbers as printed by str(float), including the exponent form (e.g. 1e-12).
+        floatnumber = Regex(r"[+-]?[0-9]+(\.[0-9]*)?([eE][+-]?[0-9]+)?")
         for function in range(0, self.no_functions):
             no_values_grammar = Word(nums).setResultsName(
                 "fun_no_values_" + str(function)
@@ -222,6 +221,7 @@ class UAIReader(object):
            '1.8750', '4.0000', '3.3330', '2.0000', '2.0000', '3.4000'])]
         """
         tables = []
+        self.parents = {}
         for function in range(0, self.no_functions):
             function_variables = self.grammar.parseString(self.network)[
                 "fun_" + str(function)
@@ -234,6 +234,11 @@ class UAIReader(object):
                     "fun_values_" + str(function)
                 ]
                 tables.append((child_var, list(values)))
+                # The scope lists the parents in reverse order of the table's axes
+                # followed by the child (see UAIWriter.get_functions).
+                self.parents[child_var] = [
+                    "var_" + str(var) for var in list(function_variables)[-2::-1]
+                ]
             elif self.network_type == "MARKOV":
                 function_variables = ["var_" + str(var) for var in function_variables]
                 values = self.grammar.parseString(self.network)[
@@ -268,7 +273,7 @@ class UAIReader(object):
                 states = int(self.domain[child_var])
                 values = np.fromiter(values, dtype=float)
                 values = values.reshape(states, values.size // states)
-                parents = list(model.predecessors(child_var))
+                parents = self.parents[child_var]
                 if len(parents) == 0:
                     tabular_cpds.append(TabularCPD(child_var, states, values))
                 else:
